@@ -38,6 +38,7 @@ type Prog struct {
 	Imports []string          `json:"imports,omitempty"`
 	Src     string            `json:"src"`             // declarations; must define func §P()
 	RefSrc  string            `json:"ref_src,omitempty"` // if set, the compiled side (and the gate) use this text instead of Src
+	Chunks  []string          `json:"chunks,omitempty"` // if set, the interpreter evaluates these pieces of Src one by one (REPL style) instead of Src as a whole
 	Steps   []string          `json:"steps,omitempty"` // REPL mode: evaluated one by one by the interpreter after Src
 	RefBody string            `json:"ref_body,omitempty"` // REPL mode: body of §P for the compiled side (defaults to Steps joined)
 	Cell    string            `json:"cell,omitempty"`  // coverage cell description
